@@ -80,6 +80,10 @@ def expected_cmp(constrained, dirs, a, b):
     return 0
 
 
+class CallTimeout(Exception):
+    pass
+
+
 def call(f, *a, **k):
     """run implementation code; exceptions become observations"""
     try:
@@ -92,5 +96,29 @@ def call(f, *a, **k):
         return "err:domain"
     except C.PlatypusError:
         return "err:platypus"
+    except CallTimeout:
+        raise
     except Exception as e:
         return "err:" + type(e).__name__
+
+
+TIMEOUTS = 0
+
+
+def call_guarded(f, *a, seconds=2, **k):
+    """like `call`, with a watchdog: library code that does not return becomes the observation err:timeout"""
+    import signal
+
+    def on_alarm(signum, frame):
+        raise CallTimeout()
+    old = signal.signal(signal.SIGALRM, on_alarm)
+    signal.alarm(seconds)
+    try:
+        return call(f, *a, **k)
+    except CallTimeout:
+        global TIMEOUTS
+        TIMEOUTS += 1
+        return "err:timeout"
+    finally:
+        signal.alarm(0)
+        signal.signal(signal.SIGALRM, old)
